@@ -217,6 +217,8 @@ def run_tlc(module, cfg=None, workers=None, simulate=None, depth=None, env=None,
         if simulate:
             cmd += ["-simulate", "num=%d" % simulate]
             cmd += ["-seed", str(tseed if tseed is not None else seed())]
+        elif tseed is not None:
+            cmd += ["-seed", str(tseed)]
         if depth:
             cmd += ["-depth", str(depth)]
         if coverage:
@@ -274,7 +276,7 @@ def tlc_ok(res, what):
 
 ASAN_ENV = {
     "ASAN_OPTIONS": "detect_leaks=1:abort_on_error=0:exitcode=77:allocator_may_return_null=1:"
-                    "detect_stack_use_after_return=0:handle_segv=1:print_summary=1:malloc_context_size=8",
+                    "detect_stack_use_after_return=0:handle_segv=1:print_summary=1:malloc_context_size=8:max_allocation_size_mb=2048",
     "LSAN_OPTIONS": "exitcode=78:print_suppressions=0",
     "OMP_NUM_THREADS": "4",
 }
@@ -310,7 +312,7 @@ def asan_signature(stderr):
     frame = "?"
     for fm in _re_frame.finditer(stderr):
         fn, loc = fm.group(1), fm.group(2)
-        if "/src/" in loc and "harness" not in loc:
+        if "/src/" in loc and "harness" not in loc and "libsanitizer" not in loc and "sysdeps" not in loc:
             frame = "%s@%s" % (fn, os.path.basename(loc).rsplit(":", 1)[0] if loc.count(":") > 1 else os.path.basename(loc))
             break
     return kind, frame
@@ -464,7 +466,8 @@ def validate_traces(module, events, nproc=None, cfg=None, timeout=1500, heap="3g
             for res in ex.map(work, list(enumerate(chunks))):
                 ress.append(res)
                 if res.error or res.rc != 0 or not res.cases:
-                    raise InfraError("trace validation with %s failed (rc=%s %s)\n%s" % (module, res.rc, res.error, res.out[-3000:]))
+                    i = res.out.find("Error:")
+                    raise InfraError("trace validation with %s failed (rc=%s %s)\n%s" % (module, res.rc, res.error, res.out[max(0, i - 200):i + 2500] if i >= 0 else res.out[-3000:]))
                 rep = res.cases[-1]
                 verdicts.extend(rep["verdicts"])
                 for k in stats:
